@@ -99,7 +99,12 @@ def classify(step):
         replaced_larger_only = True      # a dont_merge Group always takes over a mergeable one (same in-place replacement)
     zeroed = k == "group" and " gp=0" in res and "inserted" in res
     if wf_bad or chk_bad:
-        if grouping and "filtered-type-present" in clauses:
+        model_disagrees = k == "group" and (step["model"] or "").startswith("model DIFF")
+        if model_disagrees:
+            # the model reproduces the known (unfixed) behaviours of Group insertion: a malformed result the model does
+            # not predict is something else, never one of the known findings
+            key = "wf:group-unpredicted:%s" % ",".join(clauses or [asrt[:60]])
+        elif grouping and "filtered-type-present" in clauses:
             # Groups created although the Group filter is KEEP_NONE: topology->grouping* are only initialised by
             # hwloc_internal_distances_prepare(), which load() skips with HWLOC_TOPOLOGY_FLAG_NO_DISTANCES
             key = "distances-add-no-distances-uninitialised-grouping"
